@@ -1027,40 +1027,12 @@ func (h *NtfnsHandler) asyncRemove(walletId string) error {
 		return nil
 	}
 
-	if !h.suspend(true, "[asyncRemove-1] deleting balance, address, staking/binding histories", logging.LogFormat{"walletId": walletId}) {
-		return ErrTaskAbort
-	}
-	err = mwdb.Update(h.walletMgr.db, func(wtx mwdb.DBTransaction) error {
-		err := h.walletMgr.utxoStore.RemoveUnspentByWalletId(wtx, walletId)
-		if err != nil {
-			logging.CPrint(logging.ERROR, "RemoveUnspentByWalletId error", logging.LogFormat{"err": err})
-			return err
-		}
-		err = h.walletMgr.utxoStore.RemoveAddressByWalletId(wtx, walletId)
-		if err != nil {
-			logging.CPrint(logging.ERROR, "RemoveAddressByWalletId error", logging.LogFormat{"err": err})
-			return err
-		}
-		err = h.walletMgr.utxoStore.RemoveGameHistoryByWalletId(wtx, walletId)
-		if err != nil {
-			logging.CPrint(logging.ERROR, "RemoveGameHistoryByWalletId error", logging.LogFormat{"err": err})
-			return err
-		}
-
-		return h.walletMgr.utxoStore.RemoveMinedBalance(wtx, walletId)
-	})
-	h.resume(true, "[asyncRemove-1] stop", logging.LogFormat{"walletId": walletId})
-	if err != nil {
-		logging.CPrint(logging.ERROR, "[asyncRemove-1] failed", logging.LogFormat{"err": err})
-		return err
-	}
-
 	for {
 		select {
 		case <-h.quit:
 			return ErrTaskAbort
 		default:
-			if !h.suspend(true, "[asyncRemove-2] deleting credits, keystore", logging.LogFormat{"walletId": walletId}) {
+			if !h.suspend(true, "[asyncRemove] deleting credits, indexes, keystore", logging.LogFormat{"walletId": walletId}) {
 				return ErrTaskAbort
 			}
 			finish := false
@@ -1068,6 +1040,13 @@ func (h *NtfnsHandler) asyncRemove(walletId string) error {
 			err := mwdb.Update(h.walletMgr.db, func(wtx mwdb.DBTransaction) (err error) {
 				removedTx, finish, err = h.walletMgr.txStore.RemoveRelevantTx(wtx, am)
 				if finish {
+					// The records keyed by the wallet id go in the same transaction as the
+					// keystore: until then the follower (Rollback) still finds and maintains
+					// them, so nothing half-deleted is ever visible and nothing is left behind.
+					err = h.removeWalletIndexes(wtx, walletId)
+					if err != nil {
+						return err
+					}
 					err = h.walletMgr.syncStore.DeleteWalletStatus(wtx, walletId)
 					if err == nil {
 						_, err = h.walletMgr.ksmgr.DeleteKeystore(wtx, walletId)
@@ -1080,9 +1059,9 @@ func (h *NtfnsHandler) asyncRemove(walletId string) error {
 				}
 				return err
 			})
-			h.resume(true, "[asyncRemove-2] stop", logging.LogFormat{"walletId": walletId})
+			h.resume(true, "[asyncRemove] stop", logging.LogFormat{"walletId": walletId})
 			if err != nil {
-				logging.CPrint(logging.ERROR, "[asyncRemove-2] failed", logging.LogFormat{"err": err})
+				logging.CPrint(logging.ERROR, "[asyncRemove] failed", logging.LogFormat{"err": err})
 				if finish {
 					mwdb.View(h.walletMgr.db, func(rtx mwdb.ReadTransaction) error {
 						h.walletMgr.ksmgr.UpdateManagedKeystores(rtx, walletId)
@@ -1098,6 +1077,27 @@ func (h *NtfnsHandler) asyncRemove(walletId string) error {
 			}
 		}
 	}
+}
+
+// removeWalletIndexes deletes the unspent index, address records, staking/binding
+// histories and the balance of a wallet.
+func (h *NtfnsHandler) removeWalletIndexes(wtx mwdb.DBTransaction, walletId string) error {
+	err := h.walletMgr.utxoStore.RemoveUnspentByWalletId(wtx, walletId)
+	if err != nil {
+		logging.CPrint(logging.ERROR, "RemoveUnspentByWalletId error", logging.LogFormat{"err": err})
+		return err
+	}
+	err = h.walletMgr.utxoStore.RemoveAddressByWalletId(wtx, walletId)
+	if err != nil {
+		logging.CPrint(logging.ERROR, "RemoveAddressByWalletId error", logging.LogFormat{"err": err})
+		return err
+	}
+	err = h.walletMgr.utxoStore.RemoveGameHistoryByWalletId(wtx, walletId)
+	if err != nil {
+		logging.CPrint(logging.ERROR, "RemoveGameHistoryByWalletId error", logging.LogFormat{"err": err})
+		return err
+	}
+	return h.walletMgr.utxoStore.RemoveMinedBalance(wtx, walletId)
 }
 
 func (h *NtfnsHandler) OnImportWallet(walletId string) {
